@@ -13,3 +13,170 @@ Proof. reflexivity. Qed.
 Print Assumptions gen_round_frequency_eq.
 Print Assumptions gen_should_fingerprint_eq.
 Print Assumptions gen_valid_for_uptime_fingerprint_eq.
+
+(* ================= fingerprint_uptime (body after parse_packet) and Uptime.__post_init__ =================
+   The generated function returns the Python objects (UptimeResult.tps / .uptime, the Uptime fields); the model's [verdict] is
+   embedded into that type by the injective [result_of_verdict].  A Python ZeroDivisionError is [Err (Crash COther)] on the
+   generated side; the model has no such outcome, which is why the hypotheses below are needed (see NOTES.md for the
+   counterexamples, evaluated here and replayed on the real code). *)
+From Coq Require Import ZifyBool.
+From PV Require Import Proofs.UptimeP.
+Ltac Zify.zify_post_hook ::= Z.to_euclidean_division_equations.
+
+Definition res_map {A B} (f : A -> B) (r : res A) : res B := match r with Ok a => Ok (f a) | Err e => Err e end.
+Definition result_of_verdict (v : verdict) : gen_uptime_result :=
+  match v with
+  | NoVerdict => {| gr_tps := None; gr_uptime := None |}
+  | BadTps => {| gr_tps := Some (-1); gr_uptime := None |}
+  | Up tps num den mins days =>
+      {| gr_tps := Some tps;
+         gr_uptime := Some {| gu_raw_frequency := (num, den); gu_frequency := tps; gu_total_minutes := mins; gu_modulo_days := days |} |}
+  end.
+
+Lemma result_of_verdict_inj a b : result_of_verdict a = result_of_verdict b -> a = b.
+Proof. destruct a, b; cbn [result_of_verdict]; intros H; try discriminate H; try reflexivity. inversion H; subst; reflexivity. Qed.
+
+Lemma res_map_verdict_inj a b : res_map result_of_verdict a = res_map result_of_verdict b -> a = b.
+Proof.
+  destruct a, b; cbn [res_map]; intros H; try discriminate H; inversion H; subst; try reflexivity.
+  f_equal. apply result_of_verdict_inj. assumption.
+Qed.
+
+(* x & 0xFFFFFFFF on an unbounded (possibly negative) integer, and ~x & 0xFFFFFFFF *)
+Lemma land_mask32 x : Z.land x 4294967295 = x mod 4294967296.
+Proof. change 4294967295 with (Z.ones 32). rewrite Z.land_ones by lia. reflexivity. Qed.
+Lemma lnot_mask32 t : 0 <= t < 4294967296 -> Z.lnot t mod 4294967296 = 4294967296 - 1 - t.
+Proof. intros H. unfold Z.lnot. lia. Qed.
+
+Lemma gen_q_le_pos x y : 0 < snd x -> 0 < snd y -> gen_q_le x y = le_q x y.
+Proof.
+  intros Hx Hy. unfold gen_q_le, le_q.
+  replace (0 <? snd x * snd y) with true by (symmetry; apply Z.ltb_lt; apply Z.mul_pos_pos; assumption). reflexivity.
+Qed.
+Lemma gen_q_lt_pos x y : 0 < snd x -> 0 < snd y -> gen_q_lt x y = (fst x * snd y <? fst y * snd x).
+Proof.
+  intros Hx Hy. unfold gen_q_lt.
+  replace (0 <? snd x * snd y) with true by (symmetry; apply Z.ltb_lt; apply Z.mul_pos_pos; assumption). reflexivity.
+Qed.
+
+(* a frequency that passes a minimum scale > -1 truncates to a non-negative integer, so the rounded frequency is >= 1 *)
+Lemma round_freq_in_scale_nz num ms nmin dmin :
+  0 < dmin -> - dmin < nmin -> 0 < ms -> nmin * ms <= num * dmin -> round_freq (Z.quot num ms) <> 0.
+Proof.
+  intros Hd Hn Hms Hle.
+  assert (Hlow : - ms < num) by nia.
+  assert (Hq : 0 <= Z.quot num ms).
+  { destruct (Z_le_gt_dec 0 num) as [Hp|Hneg]; [apply Z.quot_pos; lia|].
+    replace num with (- (- num)) by lia. rewrite Z.quot_opp_l by lia. rewrite Z.quot_small by lia. lia. }
+  pose proof (round_freq_pos _ Hq). lia.
+Qed.
+
+Theorem gen_uptime_post_init_eq ts q :
+  round_freq (Z.quot (fst q) (snd q)) <> 0 ->
+  gen_uptime_post_init ts q =
+  Ok {| gu_raw_frequency := q; gu_frequency := round_freq (Z.quot (fst q) (snd q));
+        gu_total_minutes := ts / round_freq (Z.quot (fst q) (snd q)) / 60;
+        gu_modulo_days := 4294967295 / (round_freq (Z.quot (fst q) (snd q)) * 86400) |}.
+Proof.
+  intros Hnz. unfold gen_uptime_post_init. cbv zeta. rewrite !gen_round_frequency_eq.
+  set (f := round_freq (Z.quot (fst q) (snd q))) in *.
+  repeat match goal with
+         | |- context [Z.eqb ?a 0] => let E := fresh "E" in destruct (Z.eqb a 0) eqn:E; [apply Z.eqb_eq in E; exfalso; lia | clear E]
+         end.
+  do 3 f_equal. ring.
+Qed.
+
+(* without the guard hypothesis: __post_init__ raises ZeroDivisionError exactly when the rounded frequency is 0 *)
+Theorem gen_uptime_post_init_zero ts q :
+  round_freq (Z.quot (fst q) (snd q)) = 0 -> gen_uptime_post_init ts q = Err (Crash COther).
+Proof.
+  intros Hz. unfold gen_uptime_post_init. cbv zeta. rewrite !gen_round_frequency_eq. rewrite Hz. reflexivity.
+Qed.
+
+(* the part of the function after the wait / ticks / grace test *)
+Ltac upt_rest Hd1 Hd2 Hn Hpos :=
+  unfold raw_num, two32;
+  match goal with |- (if ?c then _ else _) = _ => destruct c end;
+  (replace (Z.eqb _ 0) with false by (symmetry; apply Z.eqb_neq; lia));
+  cbv zeta; cbn [fst snd]; rewrite ?Z.mul_1_l;
+  repeat match goal with |- context [Z.mul ?a (- (1000))] => replace (Z.mul a (- (1000))) with (- (a * 1000)) by ring end;
+  rewrite !gen_q_le_pos by (cbn [snd]; assumption); unfold le_q; cbn [fst snd];
+  (let Es := fresh "Escale" in
+   match goal with |- (if ?c then _ else _) = _ => destruct c eqn:Es end;
+   [ unfold fSYN; match goal with |- context [Z.eqb ?a 2] => destruct (Z.eqb a 2) end; reflexivity
+   | rewrite gen_uptime_post_init_eq;
+     [ reflexivity
+     | cbn [fst snd]; apply negb_false_iff in Es; apply andb_true_iff in Es; destruct Es as [Es _];
+       apply Z.leb_le in Es;
+       eapply round_freq_in_scale_nz; [exact Hd1 | exact Hn | exact Hpos | exact Es] ] ]).
+
+Theorem gen_fingerprint_uptime_eq : forall o frag ty ts last ms,
+  0 < snd (min_sc o) -> 0 < snd (max_sc o) -> - snd (min_sc o) < fst (min_sc o) ->
+  (min_wait o <= ms <= max_wait o -> 0 < ms) ->
+  gen_fingerprint_uptime o frag ty ts last ms = res_map result_of_verdict (uptime o frag ty ts last ms).
+Proof.
+  intros o frag ty ts last ms Hd1 Hd2 Hn Hms.
+  unfold gen_fingerprint_uptime, uptime. rewrite gen_valid_for_uptime_fingerprint_eq.
+  destruct (valid_uptime frag ty); cbn [negb]; [|reflexivity].
+  rewrite !negb_involutive.
+  destruct ((ts =? 0) || (last =? 0)); [reflexivity|].
+  cbv zeta. rewrite !land_mask32. unfold ticks_of, two32.
+  set (t := (ts - last) mod 4294967296).
+  assert (Ht : 0 <= t < 4294967296) by (subst t; apply Z.mod_pos_bound; lia).
+  rewrite (lnot_mask32 t Ht).
+  destruct ((min_wait o <=? ms) && (ms <=? max_wait o)) eqn:EW; cbn [negb orb]; [|reflexivity].
+  assert (Hpos : 0 < ms) by (apply andb_true_iff in EW; destruct EW as [EW1 EW2]; apply Z.leb_le in EW1, EW2; apply Hms; split; assumption).
+  destruct (t <? 5); cbn [orb]; [reflexivity|].
+  unfold grace_case, two32.
+  destruct (ms <? grace o) eqn:EG; cbn [andb].
+  - apply Z.ltb_lt in EG.
+    replace (Z.eqb (grace o) 0) with false by (symmetry; apply Z.eqb_neq; lia).
+    rewrite gen_q_lt_pos by (cbn [snd]; nia). cbn [fst snd].
+    match goal with |- (if ?c then _ else _) = res_map _ (if ?c' then _ else _) =>
+      replace c with c' by (f_equal; ring) end.
+    match goal with |- (if ?c then _ else _) = _ => destruct c end; [reflexivity|].
+    upt_rest Hd1 Hd2 Hn Hpos.
+  - upt_rest Hd1 Hd2 Hn Hpos.
+Qed.
+
+(* the same under the sanity conditions of the options actually used: minimum wait and minimum scale positive *)
+Corollary gen_fingerprint_uptime_eq_sane : forall o frag ty ts last ms,
+  0 < min_wait o -> 0 < fst (min_sc o) -> 0 < snd (min_sc o) -> 0 < snd (max_sc o) ->
+  gen_fingerprint_uptime o frag ty ts last ms = res_map result_of_verdict (uptime o frag ty ts last ms).
+Proof. intros. apply gen_fingerprint_uptime_eq; lia. Qed.
+
+(* ---- each hypothesis is needed: inputs on which the translated code and the model differ (replayed on the real code, see NOTES.md) ---- *)
+Definition cx_opts (minw g : Z) (mins maxs : Z * Z) : uopts :=
+  {| min_wait := minw; max_wait := 600000; grace := g; min_sc := mins; max_sc := maxs |}.
+(* (a) min_wait <= 0 and ms = 0: Python divides by ms_diff = 0 *)
+Example cx_ms_zero :
+  gen_fingerprint_uptime (cx_opts 0 100 (7, 10) (1500, 1)) false 16 1050 1000 0 = Err (Crash COther) /\
+  uptime (cx_opts 0 100 (7, 10) (1500, 1)) false 16 1050 1000 0 = Ok BadTps.
+Proof. vm_compute. split; reflexivity. Qed.
+(* (b) min_wait < 0 and ms < 0 (the clock went back 20 s) while the timestamp went back 20001 ticks: Python's quotient is +1000.0 Hz *)
+Example cx_ms_negative :
+  gen_fingerprint_uptime (cx_opts (-30000) 100 (7, 10) (1500, 1)) false 16 100000 120001 (-20000) =
+    res_map result_of_verdict (Ok (Up 1000 (-20000000) (-20000) 1 49)) /\
+  uptime (cx_opts (-30000) 100 (7, 10) (1500, 1)) false 16 100000 120001 (-20000) = Ok BadTps.
+Proof. vm_compute. split; reflexivity. Qed.
+(* (c) minimum scale -1.0: a reading of exactly -1.0 Hz is in scale, int(-1.0) = -1 rounds to 0 and __post_init__ divides by it *)
+Example cx_min_scale_minus_one :
+  gen_fingerprint_uptime (cx_opts 25 100 (-1, 1) (1500, 1)) false 16 1000 1002 1000 = Err (Crash COther) /\
+  uptime (cx_opts 25 100 (-1, 1) (1500, 1)) false 16 1000 1002 1000 = Ok (Up 0 (-1000) 1000 0 0).
+Proof. vm_compute. split; reflexivity. Qed.
+(* (d) a threshold written with a negative denominator (-1500 / -1 = 1500): only the representation; a float has no such form *)
+Example cx_negative_denominator :
+  gen_fingerprint_uptime (cx_opts 25 100 (7, 10) (-1500, -1)) false 16 1050 1000 500 =
+    res_map result_of_verdict (Ok (Up 100 50000 500 0 497)) /\
+  uptime (cx_opts 25 100 (7, 10) (-1500, -1)) false 16 1050 1000 500 = Ok BadTps.
+Proof. vm_compute. split; reflexivity. Qed.
+(* 0 < grace is NOT needed: the division by timestamp_grace is only reached when min_wait <= ms < grace, and then 0 < ms < grace.
+   With grace = 0 and ms = 0 (min_wait = 0) the first ZeroDivisionError is already the one of case (a). *)
+Example grace_zero_agrees :
+  gen_fingerprint_uptime (cx_opts 25 0 (7, 10) (1500, 1)) false 16 1050 1000 500 =
+  res_map result_of_verdict (uptime (cx_opts 25 0 (7, 10) (1500, 1)) false 16 1050 1000 500).
+Proof. vm_compute. reflexivity. Qed.
+
+Print Assumptions gen_uptime_post_init_eq.
+Print Assumptions gen_fingerprint_uptime_eq.
+Print Assumptions gen_fingerprint_uptime_eq_sane.
